@@ -10,6 +10,7 @@ import (
 	"testing"
 	"time"
 
+	"github.com/nyaruka/gocommon/dates"
 	"github.com/nyaruka/goflow/envs"
 	"github.com/nyaruka/goflow/excellent"
 	"github.com/nyaruka/goflow/excellent/refactor"
@@ -23,7 +24,12 @@ import (
 	"verif/harness/internal/stats"
 )
 
-func TestMain(m *testing.M) { stats.Main(m, "C11") }
+func TestMain(m *testing.M) {
+	// several functions and router tests fill a missing time of day from the clock (has_date, datetime with time fill...):
+	// an expression and its printed form are evaluated at the same frozen instant
+	dates.SetNowFunc(dates.NewFixedNow(time.Date(2024, 3, 10, 10, 30, 15, 123456789, time.UTC)))
+	stats.Main(m, "C11")
+}
 
 const watchdog = 15 * time.Second
 
